@@ -13,37 +13,37 @@ package options
 //@   ensures #applies typeis(o, "*channel.Channel") ==> result == nil && as(o, "*channel.Channel").AuthBypass == true
 //@   ensures #ignored !typeis(o, "*channel.Channel") ==> result == util.ErrIgnoredOption
 
-//@ func WithAuthNoStrictKey$1 [C19]
+//@ func WithAuthNoStrictKey$1 [C19 C14]
 //@   modifies as(o, "*transport.SSHArgs").StrictKey
 //@   ensures #applies typeis(o, "*transport.SSHArgs") ==> result == nil && as(o, "*transport.SSHArgs").StrictKey == false
 //@   ensures #ignored !typeis(o, "*transport.SSHArgs") ==> result == util.ErrIgnoredOption
 
-//@ func WithAuthPassphrase$1 [C19]
+//@ func WithAuthPassphrase$1 [C19 C14]
 //@   modifies as(o, "*transport.SSHArgs").PrivateKeyPassPhrase
 //@   ensures #applies typeis(o, "*transport.SSHArgs") ==> result == nil && as(o, "*transport.SSHArgs").PrivateKeyPassPhrase == s
 //@   ensures #ignored !typeis(o, "*transport.SSHArgs") ==> result == util.ErrIgnoredOption
 
-//@ func WithAuthPassword$1 [C19]
+//@ func WithAuthPassword$1 [C19 C14]
 //@   modifies as(o, "*transport.Args").Password
 //@   ensures #applies typeis(o, "*transport.Args") ==> result == nil && as(o, "*transport.Args").Password == s
 //@   ensures #ignored !typeis(o, "*transport.Args") ==> result == util.ErrIgnoredOption
 
-//@ func WithAuthPrivateKey$1 [C19]
+//@ func WithAuthPrivateKey$1 [C19 C14]
 //@   modifies as(o, "*transport.SSHArgs").PrivateKeyPath, as(o, "*transport.SSHArgs").PrivateKeyPassPhrase
 //@   ensures #applies typeis(o, "*transport.SSHArgs") ==> result == nil && as(o, "*transport.SSHArgs").PrivateKeyPath == ks && as(o, "*transport.SSHArgs").PrivateKeyPassPhrase == ps
 //@   ensures #ignored !typeis(o, "*transport.SSHArgs") ==> result == util.ErrIgnoredOption
 
-//@ func WithAuthSecondary$1 [C19]
+//@ func WithAuthSecondary$1 [C19 C04]
 //@   modifies as(o, "*network.Driver").AuthSecondary
 //@   ensures #applies typeis(o, "*network.Driver") ==> result == nil && as(o, "*network.Driver").AuthSecondary == s
 //@   ensures #ignored !typeis(o, "*network.Driver") ==> result == util.ErrIgnoredOption
 
-//@ func WithAuthUsername$1 [C19]
+//@ func WithAuthUsername$1 [C19 C14]
 //@   modifies as(o, "*transport.Args").User
 //@   ensures #applies typeis(o, "*transport.Args") ==> result == nil && as(o, "*transport.Args").User == s
 //@   ensures #ignored !typeis(o, "*transport.Args") ==> result == util.ErrIgnoredOption
 
-//@ func WithChannelLog$1 [C19]
+//@ func WithChannelLog$1 [C19 C11]
 //@   modifies as(o, "*channel.Channel").ChannelLog
 //@   ensures #applies typeis(o, "*channel.Channel") ==> result == nil && as(o, "*channel.Channel").ChannelLog == w
 //@   ensures #ignored !typeis(o, "*channel.Channel") ==> result == util.ErrIgnoredOption
@@ -53,7 +53,7 @@ package options
 //@   ensures #applies typeis(o, "*transport.Args") ==> result == nil && as(o, "*transport.Args").UserImplementation == i
 //@   ensures #ignored !typeis(o, "*transport.Args") ==> result == util.ErrIgnoredOption
 
-//@ func WithDefaultDesiredPriv$1 [C19]
+//@ func WithDefaultDesiredPriv$1 [C19 C04 C17]
 //@   modifies as(o, "*network.Driver").DefaultDesiredPriv
 //@   ensures #applies typeis(o, "*network.Driver") ==> result == nil && as(o, "*network.Driver").DefaultDesiredPriv == s
 //@   ensures #ignored !typeis(o, "*network.Driver") ==> result == util.ErrIgnoredOption
@@ -63,7 +63,7 @@ package options
 //@   ensures #applies typeis(o, "*generic.Driver") && result == nil ==> as(o, "*generic.Driver").Logger != nil
 //@   ensures #ignored !typeis(o, "*generic.Driver") ==> result == util.ErrIgnoredOption
 
-//@ func WithFailedWhenContains$1 [C19]
+//@ func WithFailedWhenContains$1 [C19 C13]
 //@   modifies as(o, "*generic.Driver").FailedWhenContains
 //@   ensures #applies typeis(o, "*generic.Driver") ==> result == nil && as(o, "*generic.Driver").FailedWhenContains == fw
 //@   ensures #ignored !typeis(o, "*generic.Driver") ==> result == util.ErrIgnoredOption
@@ -78,39 +78,39 @@ package options
 //@   ensures #applies typeis(o, "*generic.Driver") ==> result == nil && as(o, "*generic.Driver").Logger == l
 //@   ensures #ignored !typeis(o, "*generic.Driver") ==> result == util.ErrIgnoredOption
 
-//@ func WithNetconfExcludeHeader$1 [C19]
+//@ func WithNetconfExcludeHeader$1 [C19 C03]
 //@   modifies as(o, "*netconf.Driver").ExcludeHeader
 //@   ensures #applies typeis(o, "*netconf.Driver") ==> result == nil && as(o, "*netconf.Driver").ExcludeHeader == true
 //@   ensures #ignored !typeis(o, "*netconf.Driver") ==> result == util.ErrIgnoredOption
 
-//@ func WithNetconfForceSelfClosingTags$1 [C19]
+//@ func WithNetconfForceSelfClosingTags$1 [C19 C03]
 //@   modifies as(o, "*netconf.Driver").ForceSelfClosingTags
 //@   ensures #applies typeis(o, "*netconf.Driver") ==> result == nil && as(o, "*netconf.Driver").ForceSelfClosingTags == true
 //@   ensures #ignored !typeis(o, "*netconf.Driver") ==> result == util.ErrIgnoredOption
 
-//@ func WithNetconfPreferredVersion$1 [C19]
+//@ func WithNetconfPreferredVersion$1 [C19 C09]
 //@   let valid = s == "1.0" || s == "1.1"
 //@   modifies as(o, "*netconf.Driver").PreferredVersion
 //@   ensures #applies typeis(o, "*netconf.Driver") && valid ==> result == nil && as(o, "*netconf.Driver").PreferredVersion == s
 //@   ensures #invalid-rejected !valid ==> isErr(result, util.ErrBadOption) && as(o, "*netconf.Driver").PreferredVersion == old(as(o, "*netconf.Driver").PreferredVersion)
 //@   ensures #ignored !typeis(o, "*netconf.Driver") && valid ==> result == util.ErrIgnoredOption
 
-//@ func WithNetworkOnClose$1 [C19]
+//@ func WithNetworkOnClose$1 [C19 C17]
 //@   modifies as(o, "*network.Driver").OnClose
 //@   ensures #applies typeis(o, "*network.Driver") ==> result == nil && as(o, "*network.Driver").OnClose == f
 //@   ensures #ignored !typeis(o, "*network.Driver") ==> result == util.ErrIgnoredOption
 
-//@ func WithNetworkOnOpen$1 [C19]
+//@ func WithNetworkOnOpen$1 [C19 C17]
 //@   modifies as(o, "*network.Driver").OnOpen
 //@   ensures #applies typeis(o, "*network.Driver") ==> result == nil && as(o, "*network.Driver").OnOpen == f
 //@   ensures #ignored !typeis(o, "*network.Driver") ==> result == util.ErrIgnoredOption
 
-//@ func WithOnClose$1 [C19]
+//@ func WithOnClose$1 [C19 C17]
 //@   modifies as(o, "*generic.Driver").OnClose
 //@   ensures #applies typeis(o, "*generic.Driver") ==> result == nil && as(o, "*generic.Driver").OnClose == f
 //@   ensures #ignored !typeis(o, "*generic.Driver") ==> result == util.ErrIgnoredOption
 
-//@ func WithOnOpen$1 [C19]
+//@ func WithOnOpen$1 [C19 C17]
 //@   modifies as(o, "*generic.Driver").OnOpen
 //@   ensures #applies typeis(o, "*generic.Driver") ==> result == nil && as(o, "*generic.Driver").OnOpen == f
 //@   ensures #ignored !typeis(o, "*generic.Driver") ==> result == util.ErrIgnoredOption
@@ -125,12 +125,12 @@ package options
 //@   ensures #applies typeis(o, "*channel.Channel") ==> result == nil && as(o, "*channel.Channel").PasswordPattern == p
 //@   ensures #ignored !typeis(o, "*channel.Channel") ==> result == util.ErrIgnoredOption
 
-//@ func WithPort$1 [C19]
+//@ func WithPort$1 [C19 C14]
 //@   modifies as(o, "*transport.Args").Port
 //@   ensures #applies typeis(o, "*transport.Args") ==> result == nil && as(o, "*transport.Args").Port == i
 //@   ensures #ignored !typeis(o, "*transport.Args") ==> result == util.ErrIgnoredOption
 
-//@ func WithPrivilegeLevels$1 [C19]
+//@ func WithPrivilegeLevels$1 [C19 C04 C17]
 //@   modifies as(o, "*network.Driver").PrivilegeLevels
 //@   ensures #applies typeis(o, "*network.Driver") ==> result == nil && as(o, "*network.Driver").PrivilegeLevels == privilegeLevels
 //@   ensures #ignored !typeis(o, "*network.Driver") ==> result == util.ErrIgnoredOption
@@ -140,7 +140,7 @@ package options
 //@   ensures #applies typeis(o, "*channel.Channel") ==> result == nil && as(o, "*channel.Channel").PromptPattern == p
 //@   ensures #ignored !typeis(o, "*channel.Channel") ==> result == util.ErrIgnoredOption
 
-//@ func WithPromptSearchDepth$1 [C19]
+//@ func WithPromptSearchDepth$1 [C19 C01]
 //@   modifies as(o, "*channel.Channel").PromptSearchDepth
 //@   ensures #applies typeis(o, "*channel.Channel") ==> result == nil && as(o, "*channel.Channel").PromptSearchDepth == i
 //@   ensures #ignored !typeis(o, "*channel.Channel") ==> result == util.ErrIgnoredOption
@@ -155,22 +155,22 @@ package options
 //@   ensures #applies typeis(o, "*channel.Channel") ==> result == nil && as(o, "*channel.Channel").ReturnChar == s
 //@   ensures #ignored !typeis(o, "*channel.Channel") ==> result == util.ErrIgnoredOption
 
-//@ func WithSSHConfigFile$1 [C19]
+//@ func WithSSHConfigFile$1 [C19 C14]
 //@   modifies as(o, "*transport.SSHArgs").ConfigFile
 //@   ensures #applies typeis(o, "*transport.SSHArgs") ==> result == nil || (result == util.ErrFileNotFoundError && as(o, "*transport.SSHArgs").ConfigFile == old(as(o, "*transport.SSHArgs").ConfigFile))
 //@   ensures #ignored !typeis(o, "*transport.SSHArgs") ==> result == util.ErrIgnoredOption
 
-//@ func WithSSHConfigFileSystem$1 [C19]
+//@ func WithSSHConfigFileSystem$1 [C19 C14]
 //@   modifies as(o, "*transport.SSHArgs").ConfigFile
 //@   ensures #applies typeis(o, "*transport.SSHArgs") ==> result == nil || (isErr(result, util.ErrBadOption) && as(o, "*transport.SSHArgs").ConfigFile == old(as(o, "*transport.SSHArgs").ConfigFile))
 //@   ensures #ignored !typeis(o, "*transport.SSHArgs") ==> result == util.ErrIgnoredOption
 
-//@ func WithSSHKnownHostsFile$1 [C19]
+//@ func WithSSHKnownHostsFile$1 [C19 C14]
 //@   modifies as(o, "*transport.SSHArgs").KnownHostsFile
 //@   ensures #applies typeis(o, "*transport.SSHArgs") ==> result == nil || (result == util.ErrFileNotFoundError && as(o, "*transport.SSHArgs").KnownHostsFile == old(as(o, "*transport.SSHArgs").KnownHostsFile))
 //@   ensures #ignored !typeis(o, "*transport.SSHArgs") ==> result == util.ErrIgnoredOption
 
-//@ func WithSSHKnownHostsFileSystem$1 [C19]
+//@ func WithSSHKnownHostsFileSystem$1 [C19 C14]
 //@   modifies as(o, "*transport.SSHArgs").KnownHostsFile
 //@   ensures #applies typeis(o, "*transport.SSHArgs") ==> result == nil || (isErr(result, util.ErrBadOption) && as(o, "*transport.SSHArgs").KnownHostsFile == old(as(o, "*transport.SSHArgs").KnownHostsFile))
 //@   ensures #ignored !typeis(o, "*transport.SSHArgs") ==> result == util.ErrIgnoredOption
@@ -185,12 +185,12 @@ package options
 //@   ensures #applies typeis(o, "*transport.Standard") ==> result == nil && as(o, "*transport.Standard").ExtraKexs == l
 //@   ensures #ignored !typeis(o, "*transport.Standard") ==> result == util.ErrIgnoredOption
 
-//@ func WithSystemTransportOpenArgs$1 [C19]
+//@ func WithSystemTransportOpenArgs$1 [C19 C14]
 //@   modifies as(o, "*transport.System").ExtraArgs
 //@   ensures #applies typeis(o, "*transport.System") ==> result == nil && as(o, "*transport.System").ExtraArgs == old(as(o, "*transport.System").ExtraArgs) ++ l
 //@   ensures #ignored !typeis(o, "*transport.System") ==> result == util.ErrIgnoredOption
 
-//@ func WithSystemTransportOpenArgsOverride$1 [C19]
+//@ func WithSystemTransportOpenArgsOverride$1 [C19 C14]
 //@   modifies as(o, "*transport.System").OpenArgs
 //@   ensures #applies typeis(o, "*transport.System") ==> result == nil && as(o, "*transport.System").OpenArgs == l
 //@   ensures #ignored !typeis(o, "*transport.System") ==> result == util.ErrIgnoredOption
@@ -210,17 +210,17 @@ package options
 //@   ensures #applies typeis(o, "*transport.Args") ==> result == nil && as(o, "*transport.Args").TermWidth == i
 //@   ensures #ignored !typeis(o, "*transport.Args") ==> result == util.ErrIgnoredOption
 
-//@ func WithTimeoutOps$1 [C19]
+//@ func WithTimeoutOps$1 [C19 C05]
 //@   modifies as(o, "*channel.Channel").TimeoutOps
 //@   ensures #applies typeis(o, "*channel.Channel") ==> result == nil && as(o, "*channel.Channel").TimeoutOps == t
 //@   ensures #ignored !typeis(o, "*channel.Channel") ==> result == util.ErrIgnoredOption
 
-//@ func WithTimeoutSocket$1 [C19]
+//@ func WithTimeoutSocket$1 [C19 C05]
 //@   modifies as(o, "*transport.Args").TimeoutSocket
 //@   ensures #applies typeis(o, "*transport.Args") ==> result == nil && as(o, "*transport.Args").TimeoutSocket == t
 //@   ensures #ignored !typeis(o, "*transport.Args") ==> result == util.ErrIgnoredOption
 
-//@ func WithTransportReadSize$1 [C19]
+//@ func WithTransportReadSize$1 [C19 C16]
 //@   modifies as(o, "*transport.Args").ReadSize
 //@   ensures #applies typeis(o, "*transport.Args") ==> result == nil && as(o, "*transport.Args").ReadSize == i
 //@   ensures #ignored !typeis(o, "*transport.Args") ==> result == util.ErrIgnoredOption
